@@ -37,7 +37,7 @@ def run(tier, seed):
     rng = random.Random(seed * 7919 + 15)
     quick = tier != 'thorough'
     items, asts = single_byte_programs()
-    for i in range(240 if quick else 1500):
+    for i in range(240 if quick else 700):
         s = rng.randrange(1 << 30)
         ast, src = genprog.gen_literal_program(s)
         items.append(('lit:%d' % s, src, [rng.choice(['-O1', '-O2', '-O3'])] + (['-fstrings-as-u8'] if i % 3 == 0 else [])))
